@@ -321,6 +321,7 @@ func propC12(w *World, r *Run) {
 	ruleImmut(w, r, "C12.e", immutCoreFields(w, r, "C12.e"))
 	ruleReadAPIAs(w, r, "C12.g")
 	ruleDistributorAs(w, r, "C15.c", "C12.h")
+	ruleNoOwnHasher(w, r, "C12.i")
 }
 
 func propC14(w *World, r *Run) {
@@ -377,6 +378,7 @@ func propC18(w *World, r *Run) {
 	ruleReadLimitsConstant(w, r, "C18.f")
 	ruleFeederAs(w, r, "C18.g")
 	ruleFetchURLIsBasePlusPath(w, r, "C18.i")
+	ruleFetcherStateless(w, r, "C18.j")
 	ruleHonestStep(w, r, analyseUpdate(w, r), "C18.h", "0<stored<submitted") // a growth step between two non-zero sizes: what a feeder's proof is for
 }
 
